@@ -412,9 +412,10 @@ class GateSim(PeerSim):
             if defect == "begin":
                 kw["begin"] = b"FIX.4.2"
             elif defect == "sender_wrong":
-                kw["sender"] = "EVIL"
+                # (w == 3: wrong only in letter case - CompIDs are compared exactly)
+                kw["sender"] = p.comp_id.swapcase() if w == 3 and p.comp_id.swapcase() != p.comp_id else "EVIL"
             elif defect == "target_wrong":
-                kw["target"] = "ELSE"
+                kw["target"] = p.eut_comp_id.swapcase() if w == 3 and p.eut_comp_id.swapcase() != p.eut_comp_id else "ELSE"
             elif defect == "swapped":
                 kw["sender"], kw["target"] = p.eut_comp_id, p.comp_id
             elif defect == "sender_missing":
